@@ -109,11 +109,12 @@ class Analysis:
         "core::convert::num::<impl core::convert::From<bool> for usize>::from": (0, 1),
     }
 
-    def __init__(self, view, arg_intervals=None, summaries=None, ret_len=None, ret_discr=None):
+    def __init__(self, view, arg_intervals=None, summaries=None, ret_len=None, ret_discr=None, forced=None):
         self.v = view
         self.body = view.body
         self.summaries = summaries or {}
         self.ret_discr = ret_discr  # callback: (callee key, call terminator, analysis, state) -> discriminant interval
+        self.forced = forced or {}  # block -> the only successor to follow (assumption injected by a rule)
         self.ret_len = ret_len     # callback: (callee key, call terminator, analysis) -> interval of returned slice length
         self.arg_intervals = arg_intervals or {}
         self.nl = view.nlocals
@@ -839,6 +840,11 @@ class Analysis:
                 iv = (max(0, a[0] - b[1]), max(0, a[1] - b[0]))
         elif name in self.KNOWN_RANGES:
             iv = self.KNOWN_RANGES[name]
+        elif name in ("core::char::convert::<impl core::convert::From<char> for u64>::from",
+                      "core::char::convert::<impl core::convert::From<char> for u32>::from",
+                      "core::convert::num::<impl core::convert::From<u8> for u64>::from",
+                      "core::convert::num::<impl core::convert::From<u32> for u64>::from") and args:
+            iv, _ = self.eval_operand(st, args[0])
         elif name in self.IDENTITY_CALLS and a0_local is not None and a0_local not in self.escaped:
             for k, v in st.iv.items():
                 if isinstance(k, tuple) and k[0] == "pl" and k[1] == a0_local:
@@ -1048,6 +1054,8 @@ class Analysis:
         t = blk["term"]
         st = self.transfer_block(bi, st_in)
         succs = self.v.succ.get(bi, [])
+        if bi in self.forced:
+            succs = [x for x in succs if x == self.forced[bi]]
         out = []
         if t["t"] == "call":
             self.call_effect(st, t)
@@ -1077,6 +1085,11 @@ class Analysis:
                         armed = {ir.wrap(v, tn) for v in all_vals}
                         if all(x in armed for x in range(cur[0], cur[1] + 1)):
                             continue
+                elif plain and self.rng[d["l"]] is not None and len(vals) > 1 and not is_other:
+                    cur, _k = self.eval_operand(st, d)
+                    tn = self.v.local_tyname(d["l"])
+                    if cur is not None and not any(cur[0] <= ir.wrap(x, tn) <= cur[1] for x in vals):
+                        continue
                 elif plain and self.rng[d["l"]] is not None and len(vals) == 1 and not is_other:
                     ns = st.copy()
                     v = ir.wrap(vals[0], self.v.local_tyname(d["l"]))
